@@ -7,7 +7,7 @@
 (* the internal random source is a parameter of every insert; the harness     *)
 (* installs a scripted source so that the real list draws exactly that height.*)
 EXTENDS Integers, Sequences, FiniteSets, TLC, Json
-CONSTANTS NK, Vals, H,     \* keys 1..NK, values, largest drawn height
+CONSTANTS NK, Vals, Hs,    \* keys 1..NK, values, the tower heights an insertion may draw
           ZeroStart        \* TRUE: the list starts as a zero value (SkipList only)
 VARIABLES has, val, ht, level, mode, last
 \* mode: "zero" (zero value, nothing allocated), "zc" (zero value after Clear: allocated, no random
@@ -51,7 +51,7 @@ Clear == /\ has' = [k \in Keys |-> FALSE] /\ val' = [k \in Keys |-> 0] /\ ht' = 
 SetValue(k, v) == /\ IF has[k] THEN val' = [val EXCEPT ![k] = v] ELSE UNCHANGED val
                   /\ UNCHANGED <<has, ht, level, mode>> /\ last' = R("SetValue", <<k, v>>, <<has[k]>>)
 
-Next == \/ \E k \in Keys, v \in Vals, h \in 1..H : Set(k, v, h) \/ SetNx(k, v, h) \/ SetX(k, v, h)
+Next == \/ \E k \in Keys, v \in Vals, h \in Hs : Set(k, v, h) \/ SetNx(k, v, h) \/ SetX(k, v, h)
         \/ \E k \in 0..NK + 1 : Remove(k)
         \/ \E k \in Keys, v \in Vals : SetValue(k, v)
         \/ Clear
